@@ -263,9 +263,13 @@ func checkCmd(w *world, prop, tier string, seed int, opts *runOpts, expectMode b
 	assumedContracts = uniq(assumedContracts)
 
 	// expected-obligation guard
+	// (only postcondition-like obligations are guarded, and only for presence: call-site obligations and path
+	// counts legitimately change under harmless refactors)
 	counts := map[string]int{}
 	for _, o := range all {
-		counts[expectedKey(o)]++
+		if strings.HasPrefix(o.Kind, "ensures") || o.Kind == "field-invariant" {
+			counts[expectedKey(o)] = 1
+		}
 	}
 	expPath := filepath.Join(w.verifDir, "expected", prop+".txt")
 	if expectMode {
